@@ -453,7 +453,7 @@ fn run_case(id: String, seed: u64, n: usize, parts: usize, npreds: usize, disk: 
 }
 
 pub fn run(ctx: &mut Ctx) {
-    let ncases = ctx.pick(48u64, 1200);
+    let ncases = ctx.pick(144u64, 1200);
     let npreds = ctx.pick(140usize, 160);
     for i in 0..ncases {
         if i >= 48 && ctx.out_of_time() {
